@@ -5,3 +5,4 @@ import Proofs.PairingOrder
 import Proofs.Cigar
 import Proofs.Vector
 import Proofs.Indel
+import Proofs.Compare
